@@ -146,3 +146,12 @@ fn probe_hashmap_empty_iter() {
     assert!(n == 0);
     assert!(m.get(&8).is_none());
 }
+
+#[kani::proof]
+#[kani::stub(nix::sys::ptrace::read, stub_read)]
+#[kani::stub(nix::sys::ptrace::write, stub_write)]
+#[kani::stub(std::hash::RandomState::new, fixed_random_state)]
+#[kani::unwind(4)]
+fn probe_registry_tuned() {
+    probe_registry_add_remove();
+}
